@@ -468,6 +468,26 @@ func pipelineCheck(c *vf.Check, entry string, nScripts int, what string) {
 	for i := int(c.Seed) % step; i < len(scripts); i += step {
 		sel = append(sel, scripts[i])
 	}
+	// whatever the seed selects, one scenario of each of these shapes is always replayed: a second source b next to
+	// a, the tool run before and after a is edited (the bytes of b's output must not depend on a's content) ...
+	must := []func(js string) bool{
+		func(js string) bool {
+			i := strings.Index(js, `"op":"edit"`)
+			return i > 0 && strings.Contains(js[:i], `"op":"gen"`) && strings.Contains(js[i:], `"op":"gen"`) && strings.Contains(js, `[["p"],"b","_co.go"]`)
+		},
+	}
+	for _, want := range must {
+		have := false
+		for _, sc := range sel {
+			have = have || want(canon(sc))
+		}
+		for _, sc := range scripts {
+			if !have && want(canon(sc)) {
+				sel = append(sel, sc)
+				have = true
+			}
+		}
+	}
 	cogen := buildCogen(c)
 	traces := make([][]J, len(sel))
 	var wg sync.WaitGroup
